@@ -53,6 +53,9 @@ inductive Fn where
   | allow (f : String)
   | userFin (add : Bool) (f : String)
   | setStatus (k : String) (v : J)
+  /-- a handler-supplied function that is NOT safe to call repeatedly:
+      `body.setdefault('status', {}).setdefault(k, []).append(v)` -/
+  | appendStatus (k : String) (v : J)
   deriving Repr, Inhabited
 
 /-- `processing._is_finalizer_fn`: the framework's own finalizer edits. -/
@@ -74,12 +77,21 @@ def setStatusKey (k : String) (v : J) (body : Kvs) : Kvs :=
   | some (obj s) => insert "status" (obj (insert k v s)) body
   | _ => insert "status" (obj [(k, v)]) body
 
+def appendStatusKey (k : String) (v : J) (body : Kvs) : Kvs :=
+  match lookup "status" body with
+  | some (obj s) =>
+    match lookup k s with
+    | some (arr xs) => setStatusKey k (arr (xs ++ [v])) body
+    | _ => setStatusKey k (arr [v]) body
+  | _ => setStatusKey k (arr [v]) body
+
 def Fn.app : Fn → Obj → Obj
   | .block f, o => { o with fins := blockDeletion f o.fins }
   | .allow f, o => { o with fins := allowDeletion f o.fins }
   | .userFin true f, o => { o with fins := blockDeletion f o.fins }
   | .userFin false f, o => { o with fins := allowDeletion f o.fins }
   | .setStatus k v, o => { o with body := setStatusKey k v o.body }
+  | .appendStatus k v, o => { o with body := appendStatusKey k v o.body }
 
 /-- `for fn in self.fns: fn(body_to_be)` -/
 def applyFns (fns : List Fn) (o : Obj) : Obj := fns.foldl (fun o f => f.app o) o
@@ -418,6 +430,18 @@ def allRefused (sub : Bool) : Option (List Fn) → Server → List CycleIn → B
   | mem, s, c :: cs =>
       !(cycle sub mem c.fields c.fns c.orig c.env s).1.outcome.accepted &&
       allRefused sub (cycle sub mem c.fields c.fns c.orig c.env s).2 (cycle sub mem c.fields c.fns c.orig c.env s).1.server cs
+
+/-- Consecutive invocations of ONE daemon or timer on one object (`_daemon/_timer`): the patch of an
+    invocation is the handler's own — `cause.patch` starts as a `Patch(body=live_body)` made for this daemon
+    alone in `spawn_daemons`, and is replaced by `Patch(remaining_patch, body=body)` after every delivery — so
+    what an invocation sends is what THIS invocation accumulated (`c.fields`, `c.fns`) plus what remained of
+    this daemon's previous delivery; nothing of another daemon, timer or changing handler of the object. -/
+def daemonRun (sub : Bool) : Option (List Fn) → Server → List CycleIn → List (CycleIn × Result) × Option (List Fn) × Server
+  | mem, s, [] => ([], mem, s)
+  | mem, s, c :: cs =>
+      let r := daemonCycle sub mem c.fields c.fns c.orig c.env s
+      let rest := daemonRun sub r.2 r.1.server cs
+      ((c, r.1) :: rest.1, rest.2)
 
 /-- quiet environment: no slips, no faults -/
 def Env.quiet : Env := { slips := fun _ => [], faults := fun _ => .none }
